@@ -17,7 +17,7 @@ BUDGET_S = {"quick": 60, "thorough": 900}
 RULE = ("seeded per-attempt outcome sequences (fail / succeed / no-result / timeout), max_retries 0..6 as int label, str label or "
         "middleware default, retry_on_error as bool label, 'True'/'true'/'False' str label or default, both no_result_on_retry "
         "settings, every attempt through a real dumps -> broker -> loads cycle, interleaved with other messages; reference model "
-        "compared per message; non-trivial = at least one re-send happened or deliveries overlapped")
+        "compared per message; 15% of the runs install the retry middleware on the running workers after warm-up failures; non-trivial = at least one re-send happened or deliveries overlapped")
 
 KNOBS = {
     "n_msgs": (1, 7),
